@@ -26,6 +26,9 @@ fn main() {
         let _ = take_effin();
         RED_THREADS.lock().unwrap_or_else(|e| e.into_inner()).clear();
         *g().panic_at.lock().unwrap_or_else(|e| e.into_inner()) = c.panic_at;
+        *RED_PANIC.lock().unwrap_or_else(|e| e.into_inner()) = c.rpanic;
+        COUNT_ONLY.store(c.big > 0, std::sync::atomic::Ordering::SeqCst);
+        DELAY_US.store(c.delay_us, std::sync::atomic::Ordering::SeqCst);
         let hdr = std::cell::RefCell::new(String::from("params=? kind=?"));
         if tok_mode {
             tok_reset();
